@@ -193,6 +193,14 @@ func runC06(r *Run) {
 			}
 		}
 	}
+
+	// every issued SCT names the stored leaf: it is built from the leaf the backend returned (rule set of C01.R1)
+	r.Shared("C06.R7", func() {
+		r.Rule("C01.R1")
+		if fn := r.Fn("trillian/ctfe.addChainInternal"); fn != nil {
+			c01ReturnedLeaf(r, fn)
+		}
+	})
 }
 
 func c06Forwarding(r *Run) {
